@@ -12,6 +12,21 @@ compare(repo_root,path) -> (missing_in_model, missing_in_cxx)   (multiset differ
 Canonical pattern: the template-argument list of the specialisation, all white space removed, every
 identifier that is a template parameter of *this* specialisation (taken from the `template<...>` header
 directly in front of `struct`) replaced by `_`.   vector_repeater<V, row_major>  ->  vector_repeater<_,row_major>
+
+RULE BODIES (second tie, `compare_bodies`).  The set comparison above only sees that a specialisation EXISTS.  The body
+of every specialisation - its typedefs and the statements of `create` - is translated here into a small expression
+tree (C++ subset: calls, member calls, scoped names, arithmetic / comparison / ?: , `auto` locals,
+REMORA_RANGE_CHECK preconditions) and INTERPRETED on concrete expression terms: `X::create(...)` of a typedef'd
+optimizer dispatches on the operand's class exactly like the C++ partial specialisations (most specialised pattern;
+no rule = the proxy is just formed), `type(...)` builds the node of the typedef'd expression class INCLUDING its
+orientation template argument (`Orientation`, `typename Orientation::transposed_orientation`, `row_major`,
+`column_major`, `!B`), `Orientation::index_M / index_m` are read from detail/structure.hpp.  The resulting term is
+compared with what the EXTRACTED rewrite table C01Opt.v (the functions of the C01_opt_*_sound theorems, run by
+ocaml/c01_driver.ml, command `O`) returns for the same instance: instances of every rule with both orientations,
+non-square shapes, pairwise different index values and structured children.  A changed index expression, repetition
+count, orientation or argument order in a rule body changes the term and breaks the obligation; so does a body that
+can no longer be translated, and a rule that no instance exercises.
+Trusted (hand-written tables below): constructor argument order and accessor names of the expression classes.
 No side effects on import."""
 import os
 import re
@@ -170,6 +185,554 @@ def scrape_broken(path):
 def compare(repo_root, model_path):
     cxx, mod = Counter(scrape_cxx(repo_root)), Counter(scrape_model(model_path))
     return sorted((cxx - mod).elements()), sorted((mod - cxx).elements())
+
+
+# =====================================================================================================
+# rule bodies: translation of every `create` and interpretation on concrete terms
+# =====================================================================================================
+STRUCTURE_HEADER = "include/shark/LinAlg/BLAS/detail/structure.hpp"
+
+
+class Untranslatable(Exception):
+    pass
+
+
+class Precondition(Exception):
+    """a REMORA_RANGE_CHECK of the rule does not hold for the instance (the rule is only specified inside it)"""
+
+
+class Rule:
+    def __init__(self, name, pattern, args, tparams, typedefs, params, stmts, line):
+        self.name, self.pattern, self.args, self.tparams = name, pattern, args, tparams
+        self.typedefs, self.params, self.stmts, self.line = typedefs, params, stmts, line
+        self.fired = 0
+
+    def __repr__(self): return "%s %s" % (self.name, self.pattern)
+
+
+def _match_brace(src, i, op="{", cl="}"):
+    """src[i] == op: index just after the matching closer"""
+    depth = 0
+    while i < len(src):
+        if src[i] == op: depth += 1
+        elif src[i] == cl:
+            depth -= 1
+            if depth == 0: return i + 1
+        i += 1
+    raise Untranslatable("unbalanced %s%s" % (op, cl))
+
+
+# ---- C++ expression subset
+_TOK = re.compile(r"\s*(?:(\d+)|([A-Za-z_]\w*)|(::|&&|\|\||==|!=|<=|>=|[()<>,.?:!+\-*]))")
+
+
+def _tokens(text):
+    out, i = [], 0
+    text = text.strip()
+    while i < len(text):
+        m = _TOK.match(text, i)
+        if not m or m.end() == i: raise Untranslatable("cannot tokenize %r" % text[i:i + 30])
+        out.append(("num", int(m.group(1))) if m.group(1) else ("id", m.group(2)) if m.group(2) else ("op", m.group(3)))
+        i = m.end()
+        while i < len(text) and text[i].isspace(): i += 1
+    return out
+
+
+class _Parser:
+    def __init__(self, text): self.t = _tokens(text); self.i = 0
+    def peek(self): return self.t[self.i] if self.i < len(self.t) else ("eof", None)
+    def eat(self, kind=None, val=None):
+        tk = self.peek()
+        if (kind and tk[0] != kind) or (val is not None and tk[1] != val): raise Untranslatable("expected %s %s, got %r" % (kind, val, tk))
+        self.i += 1; return tk
+    def isop(self, *vals): tk = self.peek(); return tk[0] == "op" and tk[1] in vals
+    def parse(self):
+        e = self.cond()
+        if self.peek()[0] != "eof": raise Untranslatable("trailing tokens %r" % (self.t[self.i:],))
+        return e
+    def cond(self):
+        c = self.binary(0)
+        if self.isop("?"):
+            self.eat(); a = self.cond(); self.eat("op", ":"); b = self.cond(); return ("cond", c, a, b)
+        return c
+    LEVELS = [("||",), ("&&",), ("==", "!="), ("<", ">", "<=", ">="), ("+", "-"), ("*",)]
+    def binary(self, lvl):
+        if lvl == len(self.LEVELS): return self.unary()
+        e = self.binary(lvl + 1)
+        while self.isop(*self.LEVELS[lvl]):
+            op = self.eat()[1]; e = ("bin", op, e, self.binary(lvl + 1))
+        return e
+    def unary(self):
+        if self.isop("!", "-"): op = self.eat()[1]; return ("un", op, self.unary())
+        return self.postfix()
+    def postfix(self):
+        e = self.primary()
+        while True:
+            if self.isop("("):
+                self.eat(); args = []
+                if not self.isop(")"):
+                    args.append(self.cond())
+                    while self.isop(","): self.eat(); args.append(self.cond())
+                self.eat("op", ")"); e = ("call", e, args)
+            elif self.isop("."):
+                self.eat(); e = ("member", e, self.eat("id")[1])
+            else: return e
+    def primary(self):
+        tk = self.peek()
+        if tk[0] == "num": self.eat(); return ("num", tk[1])
+        if tk[0] == "op" and tk[1] == "(":
+            self.eat(); e = self.cond(); self.eat("op", ")"); return e
+        if tk[0] == "id":
+            if tk[1] == "typename": self.eat()
+            parts = [self.eat("id")[1]]
+            while self.isop("::"): self.eat(); parts.append(self.eat("id")[1])
+            return ("name", tuple(parts))
+        raise Untranslatable("unexpected token %r" % (tk,))
+
+
+def parse_expr(text): return _Parser(text).parse()
+
+
+def _param_name(ptxt):
+    ptxt = ptxt.strip()
+    m = re.search(r"([A-Za-z_]\w*)\s*$", ptxt)
+    if not m: return None
+    before = ptxt[:m.start()].rstrip()
+    if not before or before.endswith("::") or m.group(1) in ("const", "size_t"): return None
+    return m.group(1)
+
+
+def scrape_rule_bodies_text(src):
+    """every optimizer (partial) specialisation / primary template with a body: Rule objects in source order"""
+    src = strip_comments(src); rules = []
+    for m in re.finditer(r"\bstruct\s+(\w+_optimizer)\b", src):
+        name = m.group(1); i = m.end()
+        while src[i].isspace(): i += 1
+        args = None
+        if src[i] == "<":
+            j = _balanced(src, i); args = src[i + 1:j - 1]; i = j
+            while src[i].isspace(): i += 1
+        if src[i] == ";" or src[i] not in "{:": continue
+        params = _template_params(src, m.start())
+        if params is None: raise Untranslatable("struct %s without template header" % name)
+        head = src[:m.start()].rstrip(); k = head.rindex("template")
+        tparams = {}
+        for p in _split_top(head[head.index("<", k) + 1:-1]):
+            ids = _IDENT.findall(p.split("=")[0]); tparams[ids[-1]] = ids[0]          # name -> class | bool | typename
+        b0 = src.index("{", i); b1 = _match_brace(src, b0); body = src[b0 + 1:b1 - 1]
+        line = src.count("\n", 0, m.start()) + 1
+        cm = re.search(r"\bstatic\b[^;{(]*?\bcreate\s*\(", body)
+        if not cm: raise Untranslatable("%s<%s>: no static create" % (name, args))
+        p0 = cm.end() - 1; p1 = _match_brace(body, p0, "(", ")")
+        cparams = [_param_name(x) for x in _split_top(body[p0 + 1:p1 - 1])]
+        c0 = body.index("{", p1); c1 = _match_brace(body, c0)
+        stmts = []
+        for st in body[c0 + 1:c1 - 1].split(";"):
+            st = " ".join(st.split())
+            if not st: continue
+            mm = re.match(r"return\s+(.*)$", st)
+            if mm: stmts.append(("return", parse_expr(mm.group(1)))); continue
+            mm = re.match(r"REMORA_(?:RANGE|SIZE)_CHECK\s*\((.*)\)$", st)
+            if mm: stmts.append(("require", parse_expr(mm.group(1)))); continue
+            mm = re.match(r"(?:auto|std::size_t|size_t)\s+(\w+)\s*=\s*(.*)$", st)
+            if mm: stmts.append(("let", mm.group(1), parse_expr(mm.group(2)))); continue
+            raise Untranslatable("%s<%s>: statement %r" % (name, args, st))
+        typedefs = {}
+        for tm in re.finditer(r"\btypedef\s+(.+?)\s*\b(\w+)\s*;", body[:cm.start()] + " " + body[c1:], re.S):
+            typedefs[tm.group(2)] = " ".join(tm.group(1).split())
+        pat = "default" if args is None else canon(args, params)
+        rules.append(Rule(name, pat, None if args is None else [re.sub(r"\s+", "", a) for a in _split_top(args)], tparams, typedefs, cparams, stmts, line))
+    return rules
+
+
+def scrape_orientations_text(src):
+    """{'row_major': {'index_M': 0, 'index_m': 1, 'transposed': 'column_major'}, 'column_major': ...} from structure.hpp:
+    which of its two arguments index_M / index_m returns"""
+    src = strip_comments(src); out = {}
+    for o in ("row_major", "column_major"):
+        m = re.search(r"\bstruct\s+%s\s*:" % o, src)
+        if not m: raise Untranslatable("struct %s not found in structure.hpp" % o)
+        b0 = src.index("{", m.end()); body = src[b0:_match_brace(src, b0)]
+        d = {}
+        for f in ("index_M", "index_m"):
+            fm = re.search(r"\b%s\s*\(([^)]*)\)\s*\{\s*return\s+(\w+)\s*;\s*\}" % f, body)
+            if not fm: raise Untranslatable("%s::%s not found" % (o, f))
+            ps = _split_top(fm.group(1)); pos = [k for k, p in enumerate(ps) if re.search(r"\b%s\b" % fm.group(2), p)]
+            if len(ps) != 2 or len(pos) != 1: raise Untranslatable("%s::%s: cannot tell which argument is returned" % (o, f))
+            d[f] = pos[0]
+        tm = re.search(r"\btypedef\s+(\w+)\s+transposed_orientation\s*;", body)
+        if not tm: raise Untranslatable("%s::transposed_orientation not found" % o)
+        d["transposed"] = tm.group(1); out[o] = d
+    return out
+
+
+# ---- expression classes <-> terms of the model (hand-written: constructor argument order / accessors of
+#      detail/vector_expression_classes.hpp, detail/matrix_expression_classes.hpp)
+CLASS_HEAD = {"vector_scalar_multiply": "VScale", "vector_addition": "VAdd", "vector_unary": "VUn", "vector_binary": "VBin",
+              "matrix_vector_prod": "VMv", "matrix_row_transform": "VFold", "scalar_vector": "VConst", "unit_vector": "VUnit",
+              "vector_concat": "VConcat", "matrix_scalar_multiply": "MScale", "matrix_addition": "MAdd", "matrix_unary": "MUn",
+              "matrix_binary": "MBin", "outer_product": "MOuter", "matrix_matrix_prod": "MProd", "vector_repeater": "MRepeat",
+              "scalar_matrix": "MConst", "diagonal_matrix": "MDiagM", "matrix_concat": "MConcat", "vector_set": "vector_set"}
+CONSTRUCT = {   # class -> function(ctor args, template args evaluated) -> term
+    "vector_scalar_multiply": lambda a, t: ("VScale", a[1], a[0]), "vector_addition": lambda a, t: ("VAdd", a[0], a[1]),
+    "vector_unary": lambda a, t: ("VUn", a[1], a[0]), "vector_binary": lambda a, t: ("VBin", a[2], a[0], a[1]),
+    "matrix_vector_prod": lambda a, t: ("VMv", a[2], a[0], a[1]), "matrix_row_transform": lambda a, t: ("VFold", a[1], a[2], a[0]),
+    "scalar_vector": lambda a, t: ("VConst", a[0], a[1]), "unit_vector": lambda a, t: ("VUnit", a[0], a[1], a[2]),
+    "vector_concat": lambda a, t: ("VConcat", a[0], a[1]), "matrix_scalar_multiply": lambda a, t: ("MScale", a[1], a[0]),
+    "matrix_addition": lambda a, t: ("MAdd", a[0], a[1]), "matrix_unary": lambda a, t: ("MUn", a[1], a[0]),
+    "matrix_binary": lambda a, t: ("MBin", a[2], a[0], a[1]), "outer_product": lambda a, t: ("MOuter", a[0], a[1]),
+    "matrix_matrix_prod": lambda a, t: ("MProd", a[2], a[0], a[1]),
+    "vector_repeater": lambda a, t: ("MRepeat", t[1] == "column_major", a[0], a[1]),
+    "scalar_matrix": lambda a, t: ("MConst", a[0], a[1], a[2]), "diagonal_matrix": lambda a, t: ("MDiagM", a[0]),
+    "matrix_concat": lambda a, t: ("MConcat", t[2], a[0], a[1]),
+}
+CTOR_ARITY = {"vector_scalar_multiply": 2, "vector_addition": 2, "vector_unary": 2, "vector_binary": 3, "matrix_vector_prod": 3,
+              "matrix_row_transform": 3, "scalar_vector": 2, "unit_vector": 3, "vector_concat": 2, "matrix_scalar_multiply": 2,
+              "matrix_addition": 2, "matrix_unary": 2, "matrix_binary": 3, "outer_product": 2, "matrix_matrix_prod": 3,
+              "vector_repeater": 2, "scalar_matrix": 3, "diagonal_matrix": 1, "matrix_concat": 2}
+ACCESS = {      # (head, accessor) -> position in the term
+    ("VScale", "expression"): 2, ("VScale", "scalar"): 1, ("VAdd", "lhs"): 1, ("VAdd", "rhs"): 2, ("VUn", "expression"): 2,
+    ("VUn", "functor"): 1, ("VBin", "lhs"): 2, ("VBin", "rhs"): 3, ("VBin", "functor"): 1, ("VMv", "matrix"): 2, ("VMv", "vector"): 3,
+    ("VMv", "alpha"): 1, ("VFold", "matrix"): 3, ("VFold", "f"): 1, ("VFold", "g"): 2, ("VConst", "scalar"): 2, ("VUnit", "scalar"): 3,
+    ("VUnit", "index"): 2, ("VConcat", "lhs"): 1, ("VConcat", "rhs"): 2, ("MScale", "expression"): 2, ("MScale", "scalar"): 1,
+    ("MAdd", "lhs"): 1, ("MAdd", "rhs"): 2, ("MUn", "expression"): 2, ("MUn", "functor"): 1, ("MBin", "lhs"): 2, ("MBin", "rhs"): 3,
+    ("MBin", "functor"): 1, ("MOuter", "lhs"): 1, ("MOuter", "rhs"): 2, ("MProd", "lhs"): 2, ("MProd", "rhs"): 3, ("MProd", "alpha"): 1,
+    ("MRepeat", "expression"): 2, ("MRepeat", "num_repetitions"): 3, ("MConst", "scalar"): 3, ("MDiagM", "expression"): 1,
+    ("MConcat", "lhs"): 2, ("MConcat", "rhs"): 3, ("vector_set", "expression"): 2,
+}
+SURFACE = {"vector_range_optimizer": "VRange", "matrix_transpose_optimizer": "MTrans", "matrix_row_optimizer": "VRow",
+           "matrix_diagonal_optimizer": "VDiag", "matrix_range_optimizer": "MRange", "matrix_rows_optimizer": "MRows"}
+MODEL_CALL = {  # optimizer -> model function and the order of create's arguments in it
+    "vector_range_optimizer": ("opt_vrange", (0, 1, 2)), "matrix_transpose_optimizer": ("opt_mtrans", (0,)),
+    "matrix_row_optimizer": ("opt_mrow", (0, 1)), "matrix_diagonal_optimizer": ("opt_mdiag", (0,)),
+    "matrix_range_optimizer": ("opt_mrange", (0, 1, 2, 3, 4)), "matrix_rows_optimizer": ("opt_mrows", (0, 1, 2)),
+    "vector_scalar_multiply_optimizer": ("opt_vscale", (1, 0)), "matrix_scalar_multiply_optimizer": ("opt_mscale", (1, 0)),
+    "matrix_vector_prod_optimizer": ("opt_mvprod", (0, 1)), "matrix_matrix_prod_optimizer": ("opt_mmprod", (0, 1)),
+    "vector_unary_optimizer": ("opt_vunary", (0, 1)), "matrix_unary_optimizer": ("opt_munary", (0, 1)),
+    "fold_vector_set_optimizer": ("opt_fold_set", None),
+}
+BFUNS = ("BMul", "BMin", "BMax")
+
+
+def _is_bfun(f): return f in BFUNS or (isinstance(f, tuple) and f[0] == "BCompose")
+
+
+class Table:
+    """the translated rule table, executable on terms (tuples as in tools/c01_gen.py)"""
+    def __init__(self, rules, orient, store, gen):
+        self.rules, self.orient, self.store, self.G = rules, orient, store, gen
+        self.by_opt = {}
+        for r in rules: self.by_opt.setdefault(r.name, []).append(r)
+
+    # -- matching of one template-argument pattern against an operand
+    def match_arg(self, rule, arg, val, bind):
+        """specificity (0 = bare template parameter) or None"""
+        if arg in rule.tparams: return 0
+        m = re.match(r"(\w+)<(.*)>$", arg)
+        if not m: raise Untranslatable("pattern argument %r of %r" % (arg, rule))
+        cls, targs = m.group(1), _split_top(m.group(2))
+        head = CLASS_HEAD.get(cls)
+        if head is None: raise Untranslatable("unknown expression class %s in %r" % (cls, rule))
+        if not (isinstance(val, tuple) and val and val[0] == head): return None
+        spec = 1
+        if cls in ("vector_repeater", "vector_set"):
+            o = targs[1]; have = "column_major" if val[1] else "row_major"
+            if o in rule.tparams: bind[o] = have
+            elif o != have: return None
+            else: spec = 2
+        elif cls == "scalar_matrix" and targs[2] in rule.tparams: bind[targs[2]] = bind.get("__scalar_matrix_orientation", "row_major")
+        elif cls == "matrix_concat":
+            if targs[2] in rule.tparams: bind[targs[2]] = val[1]
+            else: raise Untranslatable("matrix_concat pattern %r" % arg)
+        return spec
+
+    def select(self, opt, args):
+        cands = []
+        for r in self.by_opt.get(opt, []):
+            if r.args is None: cands.append(((-1,), r, {})); continue
+            bind = {}; sp = []
+            for k, a in enumerate(r.args):
+                if k >= len(args): sp = None; break
+                x = self.match_arg(r, a, args[k], bind)
+                if x is None: sp = None; break
+                sp.append(x)
+            if sp is not None: cands.append((tuple(sp), r, bind))
+        if not cands: return None, None
+        best = [c for c in cands if all(len(c[0]) == len(d[0]) and all(x >= y for x, y in zip(c[0], d[0])) or d[0] == (-1,) for d in cands)]
+        if len(best) != 1: raise Untranslatable("ambiguous specialisations of %s: %s" % (opt, [str(c[1]) for c in cands]))
+        return best[0][1], best[0][2]
+
+    def dispatch(self, opt, args):
+        rule, bind = self.select(opt, args)
+        if rule is None:
+            if opt not in SURFACE: raise Untranslatable("no rule and no surface form for %s" % opt)
+            return (SURFACE[opt],) + tuple(args)
+        rule.fired += 1
+        if len(args) != len(rule.params): raise Untranslatable("%r: create takes %d arguments, called with %d" % (rule, len(rule.params), len(args)))
+        env = {n: v for n, v in zip(rule.params, args) if n}
+        env.update(("\0" + k, v) for k, v in bind.items())
+        for st in rule.stmts:
+            if st[0] == "let": env[st[1]] = self.ev(rule, env, st[2])
+            elif st[0] == "require":
+                if not self.ev(rule, env, st[1]): raise Precondition(str(rule))
+            else: return self.ev(rule, env, st[1])
+        raise Untranslatable("%r: no return" % rule)
+
+    # -- types
+    def resolve(self, rule, name, seen=()):
+        """typedef name -> ('opt', optimizer) | ('class', cls, [targs]) | ('functor', kind) | ('alias', text)"""
+        if name in seen or name not in rule.typedefs: return ("alias", name)
+        txt = re.sub(r"\btypename\s+", "", rule.typedefs[name]).strip()
+        fm = re.search(r"::\s*template\s+(\w+)\s*<", txt)
+        if fm: return ("functor", fm.group(1))
+        m = re.match(r"(\w+)\s*(?:<(.*)>)?\s*(::\s*\w+)?$", txt, re.S)
+        if not m: raise Untranslatable("%r: typedef %s = %s" % (rule, name, txt))
+        base, targs, member = m.group(1), m.group(2), m.group(3)
+        if member: return ("alias", txt)                      # typename X::type, V::const_closure_type, ...
+        if base.endswith("_optimizer"): return ("opt", base)
+        if base in CONSTRUCT: return ("class", base, [t.strip() for t in _split_top(targs or "")])
+        if targs is None: return self.resolve(rule, base, seen + (name,))
+        raise Untranslatable("%r: typedef %s = %s" % (rule, name, txt))
+
+    def targ(self, rule, env, t):
+        """value of a template argument that the model's term depends on (orientation, bool); None otherwise"""
+        t = re.sub(r"\btypename\s+", "", t).replace(" ", "")
+        if t in ("row_major", "column_major"): return t
+        if t.endswith("::transposed_orientation"):
+            o = self.targ(rule, env, t[:-len("::transposed_orientation")]); return self.orient[o]["transposed"] if o else None
+        if t.startswith("!"):
+            v = self.targ(rule, env, t[1:]); return (not v) if isinstance(v, bool) else None
+        return env.get("\0" + t)
+
+    # -- expressions
+    def ev(self, rule, env, e):
+        k = e[0]
+        if k == "num": return e[1]
+        if k == "name":
+            if len(e[1]) == 1 and e[1][0] in env: return env[e[1][0]]
+            raise Untranslatable("%r: free name %s" % (rule, "::".join(e[1])))
+        if k == "un":
+            v = self.ev(rule, env, e[2]); return (not v) if e[1] == "!" else -v
+        if k == "bin":
+            a, b = self.ev(rule, env, e[2]), self.ev(rule, env, e[3]); op = e[1]
+            if op in ("+", "-", "*") and not (isinstance(a, int) and isinstance(b, int)): raise Untranslatable("%r: arithmetic on %r %r" % (rule, a, b))
+            return {"+": lambda: a + b, "-": lambda: a - b, "*": lambda: a * b, "&&": lambda: bool(a) and bool(b), "||": lambda: bool(a) or bool(b),
+                    "==": lambda: a == b, "!=": lambda: a != b, "<": lambda: a < b, ">": lambda: a > b, "<=": lambda: a <= b, ">=": lambda: a >= b}[op]()
+        if k == "cond": return self.ev(rule, env, e[2]) if self.ev(rule, env, e[1]) else self.ev(rule, env, e[3])
+        if k == "member": raise Untranslatable("%r: data member access" % rule)
+        if k == "call":
+            f, args = e[1], [self.ev(rule, env, a) for a in e[2]]
+            if f[0] == "member": return self.accessor(rule, self.ev(rule, env, f[1]), f[2], args)
+            if f[0] == "name":
+                nm = f[1]
+                if nm in (("std", "min"), ("min",)): return min(args)
+                if nm in (("std", "max"), ("max",)): return max(args)
+                if nm == ("inner_prod",): return sum(x * y for x, y in zip(self.G.vden(self.store, args[0]), self.G.vden(self.store, args[1])))
+                if nm == ("sum",): return sum(self.G.vden(self.store, args[0]))
+                if nm[-1] == "value_type" and len(args) == 1: return args[0]
+                if len(nm) == 2 and nm[1] in ("index_M", "index_m"):
+                    o = self.targ(rule, env, nm[0])
+                    if o is None: raise Untranslatable("%r: orientation %s unknown" % (rule, nm[0]))
+                    return args[self.orient[o][nm[1]]]
+                if len(nm) == 2 and nm[1] == "create":
+                    r = self.resolve(rule, nm[0])
+                    if r[0] != "opt": raise Untranslatable("%r: %s::create is not an optimizer" % (rule, nm[0]))
+                    return self.dispatch(r[1], args)
+                if len(nm) == 1 and nm[0] not in env:
+                    r = self.resolve(rule, nm[0])
+                    if r[0] == "class":
+                        if len(args) != CTOR_ARITY[r[1]]: raise Untranslatable("%r: %s constructed with %d arguments" % (rule, r[1], len(args)))
+                        return CONSTRUCT[r[1]](args, [self.targ(rule, env, t) for t in r[2]])
+                    if r[0] == "functor":
+                        if r[1] == "multiply" and not args: return "BMul"
+                        if r[1] == "multiply_scalar" and len(args) == 1: return ("FMulScalar", args[0])
+                        if r[1] == "compose" and len(args) == 2: return ("BCompose" if _is_bfun(args[0]) else "FCompose", args[0], args[1])
+                    raise Untranslatable("%r: call of %s (%r)" % (rule, nm[0], r))
+            fv = self.ev(rule, env, f)           # element access e(i) on a vector expression value
+            if isinstance(fv, tuple) and fv and fv[0] in self.G.VEC_HEADS and len(args) == 1: return self.G.vden(self.store, fv)[args[0]]
+            raise Untranslatable("%r: call %r" % (rule, f))
+        raise Untranslatable("%r: expression %r" % (rule, e))
+
+    def accessor(self, rule, obj, name, args):
+        if args: raise Untranslatable("%r: member %s with arguments" % (rule, name))
+        if not (isinstance(obj, tuple) and obj): raise Untranslatable("%r: member %s of %r" % (rule, name, obj))
+        if name == "size" and obj[0] in self.G.VEC_HEADS: return self.G.vsize(obj)
+        if name in ("size1", "size2") and obj[0] not in self.G.VEC_HEADS and obj[0] != "vector_set": return self.G.mshape(obj)[0 if name == "size1" else 1]
+        pos = ACCESS.get((obj[0], name))
+        if pos is None: raise Untranslatable("%r: %s has no accessor %s()" % (rule, obj[0], name))
+        return obj[pos]
+
+
+# ---- instances
+class Instances:
+    """terms over the expression classes the table has rules for + containers and dense proxies of them (no rule)"""
+    def __init__(self, rng): self.rng = rng; self.vecs = {}; self.mats = {}
+    def c(self): return self.rng.choice([-3, -2, 2, 3, 5])
+    def vleaf(self, n):
+        k = self.rng.randrange(2); self.vecs[(n, k)] = True; x = ("VVar", 10 * n + k, n)
+        return x if self.rng.random() < 0.8 or n < 1 else ("VRange", ("VVar", 10 * (n + 2) + k, n + 2), 1, n + 1) if not self.vecs.__setitem__((n + 2, k), True) else x
+    def mleaf(self, r, c):
+        k = self.rng.randrange(2); u = self.rng.random()
+        if u < 0.75: self.mats[(r, c, k)] = True; return ("MVar", 100 * r + 10 * c + k, r, c)
+        self.mats[(c, r, k)] = True; return ("MTrans", ("MVar", 100 * c + 10 * r + k, c, r))
+    def ufun(self): return self.rng.choice(["FAbs", "FSqr", ("FMulScalar", 2)])
+    def bfun(self): return self.rng.choice(["BMul", "BMin", "BMax"])
+    def vec(self, n, d, cls=None):
+        rng = self.rng
+        cls = cls or (rng.choice(["leaf", "leaf", "vector_scalar_multiply", "vector_addition", "vector_unary", "vector_binary", "scalar_vector", "unit_vector",
+                                  "matrix_vector_prod", "matrix_row_transform", "vector_concat"]) if d > 0 else "leaf")
+        if cls == "leaf": return self.vleaf(n)
+        if cls == "vector_scalar_multiply": return ("VScale", self.c(), self.vec(n, d - 1))
+        if cls == "vector_addition": return ("VAdd", self.vec(n, d - 1), self.vec(n, d - 1))
+        if cls == "vector_unary": return ("VUn", self.ufun(), self.vec(n, d - 1))
+        if cls == "vector_binary": return ("VBin", self.bfun(), self.vec(n, d - 1), self.vec(n, d - 1))
+        if cls == "scalar_vector": return ("VConst", n, self.c())
+        if cls == "unit_vector": return ("VUnit", n, rng.randrange(max(n, 1)), self.c())
+        if cls == "matrix_vector_prod": k = rng.randint(2, 4); return ("VMv", rng.choice([1, 2, -3]), self.mat(n, k, d - 1), self.vec(k, d - 1))
+        if cls == "matrix_row_transform": return ("VFold", rng.choice(["KSum", "KMax", "KMin"]), rng.choice(["FId", "FAbs"]), self.mat(n, rng.randint(2, 4), d - 1))
+        if cls == "vector_concat": a = rng.randint(0, n); return ("VConcat", self.vec(a, d - 1), self.vec(n - a, d - 1))
+        raise Untranslatable("no instance generator for class %s" % cls)
+    def mat(self, r, c, d, cls=None, cm=None):
+        rng = self.rng
+        cls = cls or (rng.choice(["leaf", "leaf", "matrix_scalar_multiply", "matrix_addition", "matrix_unary", "matrix_binary", "scalar_matrix", "outer_product",
+                                  "matrix_matrix_prod", "vector_repeater", "vector_repeater", "matrix_concat"] + (["diagonal_matrix"] if r == c else [])) if d > 0 else "leaf")
+        if cls == "leaf": return self.mleaf(r, c)
+        if cls == "matrix_scalar_multiply": return ("MScale", self.c(), self.mat(r, c, d - 1))
+        if cls == "matrix_addition": return ("MAdd", self.mat(r, c, d - 1), self.mat(r, c, d - 1))
+        if cls == "matrix_unary": return ("MUn", self.ufun(), self.mat(r, c, d - 1))
+        if cls == "matrix_binary": return ("MBin", self.bfun(), self.mat(r, c, d - 1), self.mat(r, c, d - 1))
+        if cls == "scalar_matrix": return ("MConst", r, c, self.c())
+        if cls == "outer_product": return ("MOuter", self.vec(r, d - 1), self.vec(c, d - 1))
+        if cls == "matrix_matrix_prod": k = rng.randint(2, 4); return ("MProd", rng.choice([1, 2, -3]), self.mat(r, k, d - 1), self.mat(k, c, d - 1))
+        if cls == "vector_repeater":
+            cm = (rng.random() < 0.5) if cm is None else cm
+            return ("MRepeat", True, self.vec(r, d - 1), c) if cm else ("MRepeat", False, self.vec(c, d - 1), r)
+        if cls == "diagonal_matrix":
+            if r != c: raise Untranslatable("diagonal instance of non-square shape")
+            return ("MDiagM", self.vec(r, d - 1))
+        if cls == "matrix_concat":
+            rt = (rng.random() < 0.5) if cm is None else cm
+            if (c if rt else r) < 2: return self.mleaf(r, c) if cm is None else ("MConcat", rt, self.mleaf(r, c), self.mleaf(0 if not rt else r, 0 if rt else c))
+            if rt: a = rng.randint(1, c - 1); return ("MConcat", True, self.mat(r, a, d - 1), self.mat(r, c - a, d - 1))
+            a = rng.randint(1, r - 1); return ("MConcat", False, self.mat(a, c, d - 1), self.mat(r - a, c, d - 1))
+        raise Untranslatable("no instance generator for class %s" % cls)
+
+    def interval(self, n):
+        """0 <= a <= b <= n, non-trivial most of the time"""
+        rng = self.rng
+        if rng.random() < 0.12: a = rng.randint(0, n); return a, a
+        if rng.random() < 0.1: return 0, n
+        L = rng.randint(1, max(1, n - 1)); a = rng.randint(0, n - L); return a, a + L
+
+    def operand(self, rule, k, kind, shape, d):
+        """operand k of an instance of `rule` (kind 'v' | 'm'), of the class its pattern names"""
+        arg = None if rule.args is None else rule.args[k]
+        if arg is None or arg in rule.tparams:      # general pattern: containers / dense proxies (select this rule), or anything
+            d = 0 if self.rng.random() < 0.6 else d
+            return self.vec(shape, d) if kind == "v" else self.mat(shape[0], shape[1], d)
+        m = re.match(r"(\w+)<(.*)>$", arg); cls = m.group(1); targs = _split_top(m.group(2)); cm = None
+        if cls in ("vector_repeater", "vector_set") and targs[1] in ("row_major", "column_major"): cm = targs[1] == "column_major"
+        if cls == "vector_set": return ("vector_set", self.rng.random() < 0.5 if cm is None else cm, self.mat(shape[0], shape[1], d))
+        return self.vec(shape, d + 1, cls) if kind == "v" else self.mat(shape[0], shape[1], d + 1, cls, cm)
+
+    def instance(self, rule, d):
+        """argument list of rule.name::create for one instance matching the rule's pattern"""
+        rng = self.rng; o = rule.name
+        n = rng.randint(3, 6); r, c = rng.choice([(3, 5), (5, 3), (4, 6), (6, 4), (2, 5), (4, 4), (3, 3)])
+        sq = rule.args and any(a.startswith("diagonal_matrix") for a in rule.args)
+        if sq: r = c = rng.randint(3, 5)
+        if o == "vector_range_optimizer": a, b = self.interval(n); return [self.operand(rule, 0, "v", n, d), a, b]
+        if o in ("matrix_transpose_optimizer", "matrix_diagonal_optimizer"): return [self.operand(rule, 0, "m", (r, c), d)]
+        if o == "matrix_row_optimizer": return [self.operand(rule, 0, "m", (r, c), d), rng.randrange(r)]
+        if o == "matrix_range_optimizer":
+            a, b = self.interval(r); c0, d0 = self.interval(c)
+            if sq and rng.random() < 0.7: c0, d0 = a, b
+            return [self.operand(rule, 0, "m", (r, c), d), a, b, c0, d0]
+        if o == "matrix_rows_optimizer": a, b = self.interval(r); return [self.operand(rule, 0, "m", (r, c), d), a, b]
+        if o == "vector_scalar_multiply_optimizer": return [self.operand(rule, 0, "v", n, d), self.c()]
+        if o == "matrix_scalar_multiply_optimizer": return [self.operand(rule, 0, "m", (r, c), d), self.c()]
+        if o == "matrix_vector_prod_optimizer": return [self.operand(rule, 0, "m", (r, c), d), self.operand(rule, 1, "v", c, d)]
+        if o == "matrix_matrix_prod_optimizer": k = rng.randint(2, 4); return [self.operand(rule, 0, "m", (r, k), d), self.operand(rule, 1, "m", (k, c), d)]
+        if o == "vector_unary_optimizer": return [self.operand(rule, 0, "v", n, d), self.ufun()]
+        if o == "matrix_unary_optimizer": return [self.operand(rule, 0, "m", (r, c), d), self.ufun()]
+        if o == "fold_vector_set_optimizer": return [self.operand(rule, 0, "m", (r, c), d), rng.choice(["KSum", "KMax", "KMin"]), rng.choice(["FId", "FAbs"])]
+        raise Untranslatable("no instance generator for optimizer %s" % o)
+
+
+def _sx(t):
+    if isinstance(t, tuple): return "(" + " ".join(_sx(x) for x in t) + ")"
+    if isinstance(t, bool): return "true" if t else "false"
+    return str(t)
+
+
+def model_call(opt, args):
+    fn, order = MODEL_CALL[opt]
+    if fn == "opt_fold_set": return (fn, args[0][1], args[1], args[2], args[0][2])
+    return (fn,) + tuple(args[k] for k in order)
+
+
+def compare_bodies(repo_root, model_exe, tmpdir, seed=0, per_rule=10):
+    """translate the rule bodies of the header, run them and the extracted table on instances of every rule.
+    Returns dict: ok, rules, instances, skipped_precondition, mismatches [..], untranslatable [..], not_exercised [..]"""
+    import random, subprocess
+    sys.path.insert(0, os.path.dirname(os.path.abspath(__file__)))
+    import c01_gen as G
+    res = {"ok": False, "rules": 0, "instances": 0, "skipped_precondition": 0, "mismatches": [], "untranslatable": [], "not_exercised": []}
+    try:
+        with open(os.path.join(repo_root, HEADER), encoding="utf-8", errors="replace") as f: rules = scrape_rule_bodies_text(f.read())
+        with open(os.path.join(repo_root, STRUCTURE_HEADER), encoding="utf-8", errors="replace") as f: orient = scrape_orientations_text(f.read())
+    except (Untranslatable, ValueError) as ex:
+        res["untranslatable"].append("header: %s" % ex); return res
+    res["rules"] = len(rules); res["orientation_index_functions"] = orient
+    rng = random.Random(seed * 31 + 5); inst = Instances(rng); cases = []
+    for rule in rules:
+        if rule.name not in MODEL_CALL: res["untranslatable"].append("%r: optimizer not in the model" % rule); continue
+        for k in range(per_rule):
+            try: cases.append((rule, inst.instance(rule, 1 if k % 2 else 0)))
+            except Untranslatable as ex: res["untranslatable"].append("%r: %s" % (rule, ex)); break
+    # the store: every container the instances mention, filled with a fixed pattern of pairwise different small values
+    store = G.Env(); lines = []
+    def names(t):
+        if isinstance(t, tuple):
+            if t and t[0] == "VVar": yield ("v", t[1], t[2])
+            elif t and t[0] == "MVar": yield ("m", t[1], t[2], t[3])
+            else:
+                for x in t: yield from names(x)
+    decls = sorted(set(d for _, args in cases for d in names(tuple(args))))
+    for d in decls:
+        if d[0] == "v":
+            store.v[d[1]] = [((5 * i + 3 * d[1]) % 11) - 5 for i in range(d[2])]; lines.append("D v %d %d" % (d[1], d[2]))
+            lines += ["Q SSetV %d %d %d" % (d[1], i, x) for i, x in enumerate(store.v[d[1]])]
+        else:
+            store.m[d[1]] = [[((7 * i + 4 * j + d[1]) % 9) - 4 for j in range(d[3])] for i in range(d[2])]; lines.append("D m %d %d %d" % (d[1], d[2], d[3]))
+            lines += ["Q SSetM %d %d %d %d" % (d[1], i, j, x) for i, row in enumerate(store.m[d[1]]) for j, x in enumerate(row)]
+    table = Table(rules, orient, store, G); mine = []
+    for rule, args in cases:
+        try:
+            # (an operand drawn for a general pattern may select a more specialised rule: still a valid instance; which
+            #  rules were exercised is counted where they fire)
+            mine.append(_sx(table.dispatch(rule.name, args)))
+        except Precondition: mine.append(None); res["skipped_precondition"] += 1
+        except (Untranslatable, G.Reject, IndexError, KeyError, TypeError, ValueError) as ex:
+            mine.append(None); res["untranslatable"].append("%r on %s: %s: %s" % (rule, _sx(model_call(rule.name, args)), type(ex).__name__, ex))
+        lines.append("O " + _sx(model_call(rule.name, args)))
+    os.makedirs(tmpdir, exist_ok=True); path = os.path.join(tmpdir, "rule_instances.txt")
+    with open(path, "w") as f: f.write("\n".join(lines) + "\n")
+    p = subprocess.run([model_exe, path], capture_output=True, text=True, timeout=600)
+    out = [l[2:] for l in p.stdout.split("\n") if l.startswith("O ")]
+    if p.returncode != 0 or len(out) != len(cases):
+        res["untranslatable"].append("model driver: rc=%s, %d answers for %d instances: %s" % (p.returncode, len(out), len(cases), p.stderr[-300:])); return res
+    for (rule, args), a, b in zip(cases, mine, out):
+        if a is None: continue
+        res["instances"] += 1
+        if a != b and len(res["mismatches"]) < 12:
+            res["mismatches"].append({"rule": "%s<%s> (expression_optimizers.hpp:%d)" % (rule.name, rule.pattern, rule.line), "instance": _sx(model_call(rule.name, args)),
+                                      "translated_from_cxx": a, "extracted_model": b})
+        elif a != b: res["mismatches"].append(None)
+    res["not_exercised"] = [str(r) for r in rules if r.name in MODEL_CALL and not r.fired]
+    res["fired"] = {str(r): r.fired for r in rules}
+    res["ok"] = not res["mismatches"] and not res["untranslatable"] and not res["not_exercised"] and res["instances"] > 0
+    return res
 
 
 def main(argv):
